@@ -110,6 +110,16 @@ func (e *Exec) builtin(fr *Frame, st *BState, x *ssa.Call, name string, args []S
 		if a, ok := args[0].(*SliceV); ok {
 			return &Scalar{T: a.Cap, Ty: x.Type()}
 		}
+	case "recover":
+		// the value of the panic being unwound (nil on normal exits); calling it stops the panic
+		t := x.Type()
+		if v, ok := st.ghost["$panicval"]; ok {
+			st.ghost["$panicval"] = nilIface(t)
+			st.ghost["$recovered"] = boolSV(tTrue)
+			ghostTypes["$recovered"] = types.Typ[types.Bool]
+			return v
+		}
+		return nilIface(t)
 	case "ssa:deferstack":
 		return &PtrV{Ty: x.Type(), Addr: intLit(0)}
 	case "ssa:wrapnilchk":
@@ -200,6 +210,9 @@ func (e *Exec) builtin(fr *Frame, st *BState, x *ssa.Call, name string, args []S
 
 func (e *Exec) callStatic(fr *Frame, st *BState, x *ssa.Call, f *ssa.Function, args []SV, bind []SV) SV {
 	full := f.String()
+	if isHashmapMethod(f, "Each") {
+		return e.eachLoop(fr, st, x, args)
+	}
 	if r, ok := e.containerCall(st, x, f, args); ok {
 		return r
 	}
@@ -220,6 +233,9 @@ func (e *Exec) callStatic(fr *Frame, st *BState, x *ssa.Call, f *ssa.Function, a
 	if (inRepo || f.Parent() != nil) && len(f.Blocks) > 0 && fr.depth < maxInlineDepth && !hasLoop(f) && !recursive(fr, f) {
 		sub := st.clone()
 		vals, out := e.runInline(fr, f, sub, args, bind)
+		// explicit panics that left the callee are panic points of the caller
+		fr.panics = append(fr.panics, e.escaped...)
+		e.escaped = nil
 		// continue in caller with callee's exit state
 		st.cells = out.cells
 		st.heap = out.heap
